@@ -106,4 +106,7 @@ class Driver(Device, metaclass=DriverMeta):
                     self.send_message(v.to_def_message())
 
         if isinstance(msg, message.news.NewVector):
-            self._vectors[msg.name].from_new_message(msg)
+            if msg.name in self._vectors:
+                self._vectors[msg.name].from_new_message(msg)
+            else:
+                logger.warning("Driver: unknown vector %s in %s", msg.name, msg)
